@@ -36,6 +36,11 @@ pub enum End {
     ClientSilent,
     /// both clients hold tokens for the same client id (two addresses): at most one session may exist
     DuplicateId,
+    /// client 1 is configured with a channel the server does not have and sends on it: the server's message
+    /// layer disconnects it while processing the datagram (ReceivedInvalidChannelId)
+    ClientBadChannel,
+    /// the server application calls RenetServer::disconnect(client 0) and, in the same tick, transport.disconnect_all
+    ServerKickThenDisconnectAll,
 }
 
 #[derive(Clone, Copy, Debug, PartialEq, Eq)]
@@ -76,6 +81,8 @@ struct Relay {
     history: [Vec<Vec<u8>>; 2],
     /// tick at which the relay last forwarded an untouched, first-time datagram from the client to the server
     last_authentic_c2s: Option<u32>,
+    /// last tick in which the relay did anything but forward (per direction: [s2c, c2s])
+    last_tamper: [Option<u32>; 2],
 }
 
 struct ClientSide {
@@ -133,7 +140,7 @@ impl<'c> World<'c> {
         for _ in 0..cfg.clients {
             let r = sock()?;
             let c = sock()?;
-            relays.push(Relay { addr: r.local_addr().unwrap(), client: c.local_addr().unwrap(), server: server_addr, sock: r, queue: vec![], history: [vec![], vec![]], last_authentic_c2s: None });
+            relays.push(Relay { addr: r.local_addr().unwrap(), client: c.local_addr().unwrap(), server: server_addr, sock: r, queue: vec![], history: [vec![], vec![]], last_authentic_c2s: None, last_tamper: [None, None] });
             client_socks.push(c);
         }
         let st = NetcodeServerTransport::new(
@@ -164,7 +171,15 @@ impl<'c> World<'c> {
                 .map_err(|e| Violation::new("machinery/token", e.to_string()))?;
             let tr = NetcodeClientTransport::new(Duration::ZERO, ClientAuthentication::Secure { connect_token: token }, s)
                 .map_err(|e| Violation::new("machinery/transport", e.to_string()))?;
-            clients.push(ClientSide { id, rc: RenetClient::new(ConnectionConfig::default()), tr, alive: true, was_connected: false, first_disconnect_tick: None });
+            let mut cc = ConnectionConfig::default();
+            if cfg.end == End::ClientBadChannel && i == 1 {
+                cc.client_channels_config.push(renet::ChannelConfig {
+                    channel_id: 7,
+                    max_memory_usage_bytes: 10_000,
+                    send_type: renet::SendType::ReliableOrdered { resend_time: Duration::from_millis(300) },
+                });
+            }
+            clients.push(ClientSide { id, rc: RenetClient::new(cc), tr, alive: true, was_connected: false, first_disconnect_tick: None });
         }
         Ok(World {
             cfg,
@@ -201,6 +216,7 @@ impl<'c> World<'c> {
                         let fate = if open && self.cfg.fates.len() > 1 { self.cfg.fates[ctx.choose(self.cfg.fates.len())] } else { UFate::Ok };
                         let d = dir_to_server as usize;
                         if fate != UFate::Ok {
+                            r.last_tamper[d] = Some(tick + 2);
                             self.faults += 1;
                             ctx.note(|| format!("t{} relay{} {}: {} B datagram fate {:?}", tick, ri, if to_server { "c->s" } else { "s->c" }, n, fate));
                         }
@@ -250,6 +266,7 @@ impl<'c> World<'c> {
                 let old = r.history[1][0].clone();
                 ctx.note(|| format!("t{} relay{}: on-path replay of the link's first client datagram ({} B)", tick, ri, old.len()));
                 r.queue.push((old, true, tick));
+                r.last_tamper[1] = Some(tick);
                 self.faults += 1;
             }
             let mut rest = vec![];
@@ -342,6 +359,10 @@ impl<'c> World<'c> {
                     }
                 }
             }
+            if i == 1 && tick == self.cfg.end_tick && self.cfg.end == End::ClientBadChannel && c.rc.is_connected() {
+                c.rc.send_message(7u8, vec![1u8, 2, 3]);
+                self.end_initiated_tick = Some(tick);
+            }
             if i == 0 && tick == self.cfg.end_tick {
                 match self.cfg.end {
                     End::ClientRenetDisconnect => {
@@ -392,6 +413,31 @@ impl<'c> World<'c> {
                     }
                     self.srv_in.insert(client_id, false);
                     self.events.push(format!("t{} -{} {:?}", tick, client_id, reason));
+                }
+            }
+        }
+        // after an update the transport has carried out every disconnect the message layer decided
+        let lingering: Vec<u64> = self.rs.disconnections_id().into_iter().filter(|id| *id != LOCAL_ID).collect();
+        if !lingering.is_empty() {
+            return Err(Violation::new(
+                "C20/message-layer-disconnect-not-carried-out-by-update",
+                format!("tick {}: after transport.update the message layer still holds disconnected connections {:?} (handshake layer sessions: {:?})", tick, lingering, self.clients.iter().map(|c| c.id).filter(|id| self.st.client_addr(*id).is_some()).collect::<Vec<_>>()),
+            ));
+        }
+        // a disconnect initiated by a client reaches the server within a tick when the relay does not interfere
+        if let Some(t0) = self.end_initiated_tick {
+            let who = match self.cfg.end {
+                End::ClientRenetDisconnect | End::ClientTransportDisconnect => Some(0usize),
+                End::ClientBadChannel => Some(1usize),
+                _ => None,
+            };
+            if let Some(i) = who {
+                let clean_path = self.relays[i].last_tamper[1].map(|t| t + 1 < t0).unwrap_or(true);
+                if clean_path && tick >= t0 + 2 && self.st.client_addr(self.clients[i].id).is_some() {
+                    return Err(Violation::new(
+                        format!("C20/disconnect-not-propagated-to-server/{:?}", self.cfg.end),
+                        format!("tick {}: {:?} happened at tick {}, the relay did not touch that client's datagrams, yet the server still holds the session", tick, self.cfg.end, t0),
+                    ));
                 }
             }
         }
@@ -478,6 +524,25 @@ impl<'c> World<'c> {
                     let (rs, st) = (&mut self.rs, &mut self.st);
                     guard("disconnect_all", || st.disconnect_all(rs))?;
                     self.end_initiated_tick = Some(tick);
+                    if self.st.connected_clients() != 0 {
+                        return Err(Violation::new(
+                            "C20/disconnect_all-leaves-handshake-layer-sessions",
+                            format!("tick {}: transport.disconnect_all returned but {} netcode session(s) are still alive", tick, self.st.connected_clients()),
+                        ));
+                    }
+                }
+                End::ServerKickThenDisconnectAll => {
+                    let id = self.clients[0].id;
+                    self.rs.disconnect(id);
+                    let (rs, st) = (&mut self.rs, &mut self.st);
+                    guard("disconnect_all", || st.disconnect_all(rs))?;
+                    self.end_initiated_tick = Some(tick);
+                    if self.st.connected_clients() != 0 {
+                        return Err(Violation::new(
+                            "C20/disconnect_all-leaves-handshake-layer-sessions",
+                            format!("tick {}: transport.disconnect_all returned but {} netcode session(s) are still alive", tick, self.st.connected_clients()),
+                        ));
+                    }
                 }
                 _ => {}
             }
@@ -513,8 +578,8 @@ impl<'c> World<'c> {
         let affected: Vec<usize> = match cfg.end {
             End::None => vec![],
             End::ClientRenetDisconnect | End::ClientTransportDisconnect | End::ServerRenetDisconnect => vec![0],
-            End::ServerDisconnectAll => (0..self.clients.len()).collect(),
-            End::ClientSilent => vec![1],
+            End::ServerDisconnectAll | End::ServerKickThenDisconnectAll => (0..self.clients.len()).collect(),
+            End::ClientSilent | End::ClientBadChannel => vec![1],
             End::DuplicateId => vec![],
         };
         for (i, c) in self.clients.iter().enumerate() {
@@ -601,7 +666,9 @@ impl Scenario for UdpScenario {
                 w.server_phase(ctx)?;
                 w.pump(ctx, false)?;
                 let mut h = DefaultHasher::new();
-                (tick, &w.events, w.obtained.values().map(|v| v.len()).collect::<Vec<_>>()).hash(&mut h);
+                let mut evs = w.events.clone();
+                evs.sort();
+                (tick, &evs, w.obtained.values().map(|v| v.len()).collect::<Vec<_>>()).hash(&mut h);
                 for c in &w.clients {
                     (c.rc.is_connected(), c.rc.is_disconnected(), format!("{:?}", c.tr.disconnect_reason())).hash(&mut h);
                 }
@@ -610,7 +677,9 @@ impl Scenario for UdpScenario {
             w.check_end()
         })();
         let mut h = DefaultHasher::new();
-        w.events.hash(&mut h);
+        let mut evs = w.events.clone();
+        evs.sort();
+        evs.hash(&mut h);
         for (k, v) in &w.obtained {
             (k, v.len()).hash(&mut h);
         }
@@ -649,6 +718,8 @@ pub fn scenarios(tier: Tier) -> Vec<UdpScenario> {
         ("transport.disconnect_all", End::ServerDisconnectAll),
         ("client 1 goes silent", End::ClientSilent),
         ("both clients present tokens for the same client id", End::DuplicateId),
+        ("client 1 sends on a channel the server lacks", End::ClientBadChannel),
+        ("RenetServer::disconnect(client 0) then transport.disconnect_all in one tick", End::ServerKickThenDisconnectAll),
     ] {
         v.push(UdpScenario {
             cfg: UdpCfg {
@@ -662,9 +733,28 @@ pub fn scenarios(tier: Tier) -> Vec<UdpScenario> {
                 // time-out 2 s = 8 ticks, plus resend and teardown
                 tail: 14,
                 fates: all.clone(),
-                local_host: end != End::ServerDisconnectAll,
+                local_host: end != End::ServerDisconnectAll && end != End::ServerKickThenDisconnectAll,
             },
         });
+    }
+    // application disconnects while the handshake is still in progress (ticks 1..3)
+    for t in 1..=3u32 {
+        for (name, end) in [("RenetClient::disconnect", End::ClientRenetDisconnect), ("transport.disconnect", End::ClientTransportDisconnect)] {
+            v.push(UdpScenario {
+                cfg: UdpCfg {
+                    name: format!("2 clients, client 0 {} at tick {} (handshake in progress)", name, t),
+                    clients: 2,
+                    end,
+                    end_tick: t,
+                    send_tick: 5,
+                    horizon: 6,
+                    fault_from: 0,
+                    tail: 14,
+                    fates: all.clone(),
+                    local_host: false,
+                },
+            });
+        }
     }
     v
 }
